@@ -1,5 +1,6 @@
 import SnowModel.Drv.Util
 import SnowModel.Core.L2
+import SnowModel.Core.L2Hyp
 open Lean
 
 namespace SnowModel.Drv.L2
@@ -97,6 +98,16 @@ def handle (m : String) (j : Json) : Except String Json := do
     let fs := (optField j "final_save").bind (fun v => v.getBool?.toOption) |>.getD true
     let o := runChain fuel r parts.toList fs
     pure (Json.mkObj [("status", Json.str o.status), ("rows", Json.arr (o.out.map outRowJ).toArray)])
+  | "l2.hyp" =>
+    -- the decidable hypotheses of the split theorems (Props/C04L2) on this recipe and composition
+    let r ← parseRecipe (← j.getObjVal? "recipe")
+    let parts ← (← getArr j "parts").mapM (fun (v : Json) => v.getNat?)
+    let fuel := (optField j "fuel").bind (fun v => v.getNat?.toOption) |>.getD 3000
+    pure (Json.mkObj [("no_top_vars", Json.bool (noVarStmts r.statements)),
+                      ("lit_once", Json.bool (LitOnceFd.LitOnceStmts r.statements)),
+                      ("positive", Json.bool (parts.toList.all (fun k => decide (0 < k)))),
+                      ("clean_cuts", Json.bool (cleanCuts fuel r false parts.toList false (initSt r))),
+                      ("clean_cuts_final", Json.bool (cleanCuts fuel r true parts.toList false (initSt r)))])
   | "l2.look_for_number" =>
     let x ← getStr j "s"
     match lookForNumber x with
